@@ -44,6 +44,7 @@ const (
 	KTMaps    = "[]taggable-map"
 	KPTMaps   = "[]*taggable-map"
 	KTStruct  = "*taggable-struct"
+	KNTMap    = "nested-tagged-map" // a plain map below a Taggable map whose keys are tagged through nested pointers
 )
 
 // Map value layouts.
@@ -141,7 +142,7 @@ func (s *Shape) write(sb *strings.Builder) {
 		sb.WriteString("]")
 	case KPBStruct:
 		fmt.Fprintf(sb, "{%d string values}", len(s.Keys))
-	case KMap, KTMap:
+	case KMap, KTMap, KNTMap:
 		sb.WriteString("{")
 		for i, k := range s.Kids {
 			if i > 0 {
@@ -374,6 +375,24 @@ func genTMap(t *rapid.T, depth int) *Shape {
 			o := rapid.SampledFrom([]string{"", "", "redact", "encrypt", "hmac-sha256"}).Draw(t, "top")
 			key = fmt.Sprintf("%s|%s|%s", key, c, o)
 		}
+		if !strings.Contains(key, "|") && rapid.IntRange(0, 3).Draw(t, "nestedTagged") == 0 {
+			// an untagged key holding a plain map whose own keys are tagged through nested pointers; the
+			// outer key may be an unusual but legal map key
+			outer := rapid.SampledFrom([]string{"inner", "inner", "", ".", "..", "a~b", "x/y", "sp ace"}).Draw(t, "outerKey")
+			dup := false
+			for _, k := range s.Keys {
+				if k == outer {
+					dup = true
+				}
+			}
+			if !dup {
+				n := genTMap(t, 0)
+				n.K = KNTMap
+				s.Keys = append(s.Keys, outer)
+				s.Kids = append(s.Kids, n)
+				continue
+			}
+		}
 		s.Keys = append(s.Keys, key)
 		if strings.Contains(key, "|") || depth <= 0 || rapid.IntRange(0, 2).Draw(t, "plainVal") > 0 {
 			s.Kids = append(s.Kids, &Shape{K: KString})
@@ -525,14 +544,26 @@ func (c *canaries) next() string {
 type TMapT map[string]interface{}
 
 func (m TMapT) Tags() ([]encrypt.PointerTag, error) {
+	return collectTags("", map[string]interface{}(m)), nil
+}
+
+var ptrEsc = strings.NewReplacer("~", "~0", "/", "~1")
+
+// collectTags emits one PointerTag per "name|class|op" key, also inside nested plain maps (nested pointers
+// /outer/inner, with pointerstructure escaping of the segments).
+func collectTags(prefix string, m map[string]interface{}) []encrypt.PointerTag {
 	var out []encrypt.PointerTag
-	for k := range m {
+	for k, v := range m {
 		parts := strings.Split(k, "|")
 		if len(parts) == 3 {
-			out = append(out, encrypt.PointerTag{Pointer: "/" + k, Classification: encrypt.DataClassification(parts[1]), Filter: encrypt.FilterOperation(parts[2])})
+			out = append(out, encrypt.PointerTag{Pointer: prefix + "/" + ptrEsc.Replace(k), Classification: encrypt.DataClassification(parts[1]), Filter: encrypt.FilterOperation(parts[2])})
+			continue
+		}
+		if inner, ok := v.(map[string]interface{}); ok {
+			out = append(out, collectTags(prefix+"/"+ptrEsc.Replace(k), inner)...)
 		}
 	}
-	return out, nil
+	return out
 }
 
 // TStructT is a Taggable struct: class-tagged fields plus a map whose keys are tagged through
@@ -547,14 +578,7 @@ type TStructT struct {
 }
 
 func (t *TStructT) Tags() ([]encrypt.PointerTag, error) {
-	var out []encrypt.PointerTag
-	for k := range t.Attrs {
-		parts := strings.Split(k, "|")
-		if len(parts) == 3 {
-			out = append(out, encrypt.PointerTag{Pointer: "/Attrs/" + k, Classification: encrypt.DataClassification(parts[1]), Filter: encrypt.FilterOperation(parts[2])})
-		}
-	}
-	return out, nil
+	return collectTags("/Attrs", t.Attrs), nil
 }
 
 var (
@@ -609,6 +633,8 @@ func typeOf(s *Shape) reflect.Type {
 		return reflect.SliceOf(tMSI)
 	case KTMap:
 		return tTMap
+	case KNTMap:
+		return tMSI
 	case KPTMap:
 		return reflect.PointerTo(tTMap)
 	case KTStruct:
